@@ -100,7 +100,8 @@ pub fn vx_clone_token(t: &Token) -> (r: Token)
 
 #[verifier::external_body]
 pub fn vx_clone_tokens(t: &Tokens) -> (r: Tokens)
-    ensures toks_view(r@) == toks_view(t@), r@.len() == t@.len()
+    ensures toks_view(r@) == toks_view(t@), r@.len() == t@.len(),
+        forall|j: int| 0 <= j < t@.len() ==> (#[trigger] r@[j]).0@ == t@[j].0@ && r@[j].1@ == t@[j].1@,
 { t.clone() }
 '''
 
